@@ -409,7 +409,7 @@ class C(Check):
                     unsound += [x for x in lib if abs(mpmath.im(x)) >= mpf(10) ** -30 and abs(fx(bb * x + cc) - vv) > mpf(10) ** -20]
                 missing = [x for x in ref if not any(abs(x - y) < mpf(10) ** -25 for y in lib)]
                 # the library solves for e^(ix) and takes the argument of each root with atan2
-                neg = [x for x in missing if mpmath.cos(x) < -mpf(10) ** -30]
+                neg = [x for x in missing if mpmath.cos(mpmath.re(x)) < -mpf(10) ** -30]        # sign of Re e^(ix)
                 return unsound, missing, neg, len(ref)
         out = _value.bounded(work, 20, None)
         if out is None:
